@@ -18,7 +18,10 @@ import (
 
 // ---------------------------------------------------------------- C19
 
-var c19Kinds = []string{"success", "lexical", "no-section", "syntax-rule", "undefined", "norules", "unproductive", "dollar-range", "dollar-zero", "too-many-states", "unterminated-action", "unterminated-comment"}
+var c19Kinds = []string{"success", "lexical", "no-section", "syntax-rule", "undefined", "norules", "unproductive", "dollar-range", "dollar-zero", "too-many-states", "unterminated-action", "unterminated-comment", "prologue-not-go"}
+
+// every option set of `generate`, as in C14
+var c19Variants = append(append([]wl.Variant(nil), wl.AllVariants...), wl.Variant{Lang: "go", Http: true}, wl.Variant{Lang: "go", Object: true, Http: true})
 
 const sentinel = "SENTINEL: pre-existing output file, must survive a failed generation\n"
 
@@ -26,7 +29,7 @@ func genC19(ctx *Ctx, i int) *Input {
 	r := rng.New(ctx.Seed, "C19", i)
 	in := &Input{Index: i}
 	kind := c19Kinds[i%len(c19Kinds)]
-	in.Variant = wl.AllVariants[(i/len(c19Kinds))%len(wl.AllVariants)]
+	in.Variant = c19Variants[(i/len(c19Kinds))%len(c19Variants)]
 	if kind == "too-many-states" && (i/len(c19Kinds))%12 >= 2 {
 		// the 2000-state limit costs seconds per run: once per variant per ~140 cases
 		kind = "success"
@@ -137,6 +140,10 @@ func c19Text(in *Input) string {
 			at = first + 4
 		}
 		return text[:at] + "zz : { unbalanced \n" + text[at:]
+	case "prologue-not-go":
+		// the code between %{ and %} is the user's business: yaccgo copies it, whatever it is (here: an import without
+		// quotes). Not a failure kind of the unchanged tree - the oracle is the same either way.
+		return strings.Replace(text, "import \"fmt\"", "import fmt", 1)
 	case "unterminated-comment":
 		at := first + 1
 		if late {
@@ -266,6 +273,9 @@ func c19CLI(ctx *Ctx, res *Result, in *Input, text, kind string) *Result {
 		}
 		if in.Variant.Object {
 			a = append(a, "-o")
+		}
+		if in.Variant.Http {
+			a = append(a, "-d")
 		}
 		lang := "go"
 		if in.Variant.Lang == "ts" {
